@@ -865,7 +865,7 @@ func c02SessionCookies(name string, list []*http.Cookie) []ck {
 func (r *c02Run) issueSaved(m *c02Member, label string, ss *sessions.SessionState) *c02Art {
 	want := c02Snap(ss)
 	rec := httptest.NewRecorder()
-	if err := m.px.P.sessionStore.Save(rec, c02Request(""), ss); err != nil {
+	if err := verifSessionStore(m.px.P).Save(rec, c02Request(""), ss); err != nil {
 		r.c.Error("%s/%s: Save failed: %v", m.Label, label, err)
 		return nil
 	}
@@ -932,7 +932,7 @@ func (r *c02Run) issueLogin(m *c02Member, label, user string) (sess, csrf *c02Ar
 	}
 	// the truth of a login session is what the unaltered cookie loads, cross-checked against
 	// what the provider knows about the user
-	v, err := m.px.P.sessionStore.Load(c02Request(c02Header(cks)))
+	v, err := verifSessionStore(m.px.P).Load(c02Request(c02Header(cks)))
 	if err != nil || v == nil {
 		r.c.Violate("C02/issued-credential-not-loadable/login", fmt.Sprintf("%s/%s: the cookie set by the login does not load: %v", m.Label, label, err), 1, label)
 		return nil, csrf
@@ -1022,7 +1022,7 @@ func (r *c02Run) csrfFromStart(m *c02Member, label string, start *world.Resp, lo
 
 func (r *c02Run) sessionLoader(m *c02Member) *c02Loader {
 	return &c02Loader{ID: "session-store@" + m.Label, Kind: "session", Owner: m, Issuer: m.issuer("session"), Name: m.px.Opts.Cookie.Name, E2E: m.px,
-		Load: func(req *http.Request) (any, error) { return m.px.P.sessionStore.Load(req) }}
+		Load: func(req *http.Request) (any, error) { return verifSessionStore(m.px.P).Load(req) }}
 }
 
 func (r *c02Run) csrfLoader(m *c02Member, name string) *c02Loader {
@@ -1040,7 +1040,7 @@ func (r *c02Run) siblingSession(m *c02Member, name, secret string) *c02Loader {
 	cp := m.px.Opts.Cookie
 	cp.Name, cp.Secret = name, secret
 	var st sessions.SessionStore
-	if mgr, ok := m.px.P.sessionStore.(*persistence.Manager); ok {
+	if mgr, ok := verifSessionStore(m.px.P).(*persistence.Manager); ok {
 		st = &persistence.Manager{Store: mgr.Store, Options: &cp}
 	} else {
 		s, err := cookiestore.NewCookieSessionStore(&m.px.Opts.Session, &cp)
